@@ -2,6 +2,10 @@
 use rscel::{ByteCode, CelError, CelResult, CelValue};
 
 pub fn hex(bytes: &[u8]) -> String {
+    if bytes.is_empty() {
+        // the empty string is written `_` so that it survives splitting on spaces
+        return "_".to_string();
+    }
     let mut s = String::with_capacity(bytes.len() * 2);
     for b in bytes {
         s.push_str(&format!("{:02x}", b));
